@@ -84,7 +84,7 @@ func Start() *Engine {
 				logrus.Info("Update DB")
 				logrus.Infof("-> %#v", req.expr)
 				logrus.Infof("-> %s", req.expr)
-				value, err := req.expr.Eval(ctx, global)
+				value, err := evalUpdate(ctx, req.expr, global)
 				if err != nil {
 					req.failed <- err
 					continue
@@ -144,6 +144,18 @@ func (e *Engine) Observe(
 type updateRequest struct {
 	expr   rel.Expr
 	failed chan<- error
+}
+
+// evalUpdate evaluates an update on the engine goroutine. A panic inside the
+// evaluator must fail that one update, not take the engine (and with it every
+// observer and every later request) down.
+func evalUpdate(ctx context.Context, expr rel.Expr, global rel.Scope) (value rel.Value, err error) {
+	defer func() {
+		if r := recover(); r != nil {
+			value, err = nil, errors.WrapPrefix(r, "update panic", 0)
+		}
+	}()
+	return expr.Eval(ctx, global)
 }
 
 type watcher struct {
